@@ -487,6 +487,9 @@ func checkC12(c *Ctx, r *Report) {
 	r.Undecidedcl = []string{"order of raw writes from concurrent writers (schedule property; single queue/single consumer is decided in C06)"}
 	r.Assumptions = []string{"closed world of appender implementations"}
 	ro := c.roles(r)
+	if c.checkLifecycleSemantics(r, ro, "C12.lifecycle-values", r.Tier == "thorough") {
+		r.Decide([]string{"C12.handle:", "C12.unknown-name:", "C12.forward:", "C12.len:"}, nil, "handles evaluated over operation sequences")
+	}
 	c.checkFanoutSemantics(r, ro, "C12.fanout-values")
 	lw := c.logType("LoggerWrapper")
 	if lw == nil {
